@@ -1093,8 +1093,97 @@ func (a *Analysis) ruleScopesBeforeSingletons() {
 		switch {
 		case in.closeCount == 0 && provClosed > 0 && a.finOp != nil && a.finOp.Done:
 			a.add("C11", "C11.scopesFirst", "escaped", "instance #%d (r%d, created by op%d %s which succeeded, owner %s) was never closed although provider Close returned (seq %d): its scope outlived the provider's singletons", in.ID, in.Reg, op.GID, op.Op, ow, provClosed)
+			if op.Handle >= 0 && a.closingStartedBefore(op.Handle, op.EndSeq) {
+				// the operation overlapped a Close and "completed normally", yet what it returned is owned by
+				// nobody: a half-initialised result
+				msg := fmt.Sprintf("op%d %s overlapped a Close and returned successfully, but instance #%d (r%d) it constructed is tracked by no scope: it was never closed although the scope and the provider have been closed", op.GID, op.Op, in.ID, in.Reg)
+				a.add("C13", "C13.overlap", opNames[op.Op.Kind]+"||Close/orphan", "%s", msg)
+				a.add("C09", "C09.valid", opNames[op.Op.Kind]+"||Close/orphan", "%s", msg)
+			}
 		case in.closeCount > 0 && firstSing > 0 && in.closeSeq[0] > firstSing:
 			a.add("C11", "C11.scopesFirst", "late", "instance #%d (r%d, created by op%d %s which succeeded, owner %s) was closed at seq %d, after singleton instance #%d had been closed (seq %d)", in.ID, in.Reg, op.GID, op.Op, ow, in.closeSeq[0], singInst, firstSing)
+		}
+	}
+}
+
+// ruleCloseComplete (any schedule): a Close call that is the first cause of its
+// handle's disposal (no earlier Close of the handle or an ancestor, no earlier
+// cancellation) returns only after every instance of the handle's subtree that
+// an already finished, successful operation had created has been closed -
+// also when a descendant is being closed by somebody else at that moment (its
+// own Close, its cancellation watcher): the caller waits for that to finish.
+func (a *Analysis) ruleCloseComplete() {
+	m := a.m
+	for _, op := range a.ops {
+		if !(op.Op.Kind == OpClose || op.Op.Kind == OpFinish) || !op.Done || op.Handle < 0 || op.Panic != nil || op.Aborted != "" {
+			continue
+		}
+		ownerH := Owner{OwScope, op.Handle}
+		if op.Handle == 0 {
+			ownerH = Owner{OwRoot, 0}
+		}
+		if a.closeCauseSeq(ownerH) != op.StartSeq {
+			continue
+		}
+		// sole closer: no other Close of this handle or an ancestor, and no cancellation of their
+		// creation contexts, before this call returned (a Close that loses against another closer
+		// of the same scope returns at once, while the winner is still at work: C12.idem)
+		sole := true
+		for hid := op.Handle; hid >= 0 && sole; {
+			for _, y := range a.ops {
+				if y != op && (y.Op.Kind == OpClose || y.Op.Kind == OpFinish) && y.Handle == hid && y.StartSeq <= op.EndSeq {
+					sole = false
+				}
+			}
+			hd := a.h.handle(hid)
+			if hd == nil {
+				break
+			}
+			if hd.CancelSeq > 0 && hd.CancelSeq <= op.EndSeq {
+				sole = false
+			}
+			if hd.Parent == hid {
+				break
+			}
+			hid = hd.Parent
+		}
+		if !sole {
+			continue
+		}
+		for _, in := range a.h.insts {
+			if in.Inv < 0 || !m.regs[in.Reg].Outs[in.OutIdx].Concrete.IsDisp() {
+				continue
+			}
+			inv := a.h.invs[in.Inv]
+			if inv.Outcome != OutOK || inv.Op < 0 {
+				continue
+			}
+			cop := a.ops[inv.Op]
+			if !cop.Done || cop.Err != nil || cop.Panic != nil || cop.Aborted != "" || cop.EndSeq >= op.StartSeq {
+				continue
+			}
+			ow := a.ownerOf(in)
+			inSub := false
+			switch {
+			case op.Handle == 0:
+				inSub = ow.Kind == OwScope || ow.Kind == OwRoot || ow.Kind == OwProvider
+			case ow.Kind == OwScope:
+				inSub = ow.ID == op.Handle || a.descendantOf(ow.ID, op.Handle)
+			}
+			if !inSub {
+				continue
+			}
+			if in.closeCount == 0 || in.closeSeq[0] > op.EndSeq {
+				when := "never"
+				if in.closeCount > 0 {
+					when = fmt.Sprintf("only at seq %d", in.closeSeq[0])
+				}
+				msg := fmt.Sprintf("Close of h%d (op%d, seq %d-%d) returned while instance #%d (r%d, owner %s, created by op%d which had finished) was still open (closed %s)", op.Handle, op.GID, op.StartSeq, op.EndSeq, in.ID, in.Reg, ow, cop.GID, when)
+				a.add("C10", "C10.once", ownerKind(ow)+"/open-after-owner-close", "%s", msg)
+				a.add("C12", "C12.all", "left-open/any-schedule", "%s", msg)
+				a.add("C11", "C11.childrenFirst", "left-open/any-schedule", "%s", msg)
+				a.add("C13", "C13.cascade", "left-open", "%s", msg)
+			}
 		}
 	}
 }
@@ -1168,6 +1257,7 @@ func (a *Analysis) ruleOrder() {
 		}
 	}
 	a.ruleScopesBeforeSingletons()
+	a.ruleCloseComplete()
 	if !exact {
 		return
 	}
